@@ -123,36 +123,28 @@ class EIG(BaseRoutine):
         Returns `fx`, `fy`, `gx`, `gy`, `Tf`.
         """
         dae = self.system.dae
-        rows = np.arange(dae.n, dtype=int)
-        cols = np.arange(dae.n, dtype=int)
-        vals = np.ones(dae.n, dtype=float)
 
-        swaps = []
-        bidx = self.nz_counts
-        for ii in range(dae.n - self.nz_counts):
-            if ii in self.zstate_idx:
-                while (bidx in self.zstate_idx):
-                    bidx += 1
-                cols[ii] = bidx
-                rows[bidx] = ii
-                swaps.append((ii, bidx))
+        # new order: states with non-zero time constants first (original
+        # order kept), followed by states with zero time constants
+        nz_idx = np.setdiff1d(np.arange(dae.n, dtype=int), self.zstate_idx)
+        order = np.concatenate((nz_idx, self.zstate_idx)).astype(int)
 
-        # swap the variable names
-        for fr, bk in swaps:
-            bk_name = self.x_name[bk]
-            self.x_name[fr] = bk_name
-        self.x_name = self.x_name[:self.nz_counts]
+        # keep the names of the remaining states
+        self.x_name = self.x_name[nz_idx]
 
-        # compute the permutation matrix for `As` containing non-states
-        perm = spmatrix(matrix(vals), matrix(rows), matrix(cols))
-        As_perm = perm * sparse(self.As) * perm
+        # compute the permutation matrix for `As` containing non-states;
+        # row `k` of `perm * As * perm.T` is row `order[k]` of `As`
+        perm = spmatrix(1.0, range(dae.n), order.tolist(), (dae.n, dae.n), 'd')
+        As_perm = perm * sparse(self.As) * perm.T
         self.As_perm = As_perm
 
         nfx = As_perm[:self.nz_counts, :self.nz_counts]
         nfy = As_perm[:self.nz_counts, self.nz_counts:]
         ngx = As_perm[self.nz_counts:, :self.nz_counts]
         ngy = As_perm[self.nz_counts:, self.nz_counts:]
-        nTf = np.delete(self.system.dae.Tf, self.zstate_idx)
+
+        # rows of `As` have been divided by their time constants in the first reduction
+        nTf = np.ones(self.nz_counts)
 
         return nfx, nfy, ngx, ngy, nTf
 
